@@ -207,13 +207,20 @@ oracle and non-triviality rule",
         "generated models x texts: after predict no label is unknown and the tokens partition the \
 text at the predicted word boundaries (non-trivial = >= 2 tokens)",
         n,
-        || gen::model_case(gen::ModelCfg::BOUNDARY),
+        || gen::model_case(gen::ModelCfg { min_texts: 2, ..gen::ModelCfg::BOUNDARY }),
         |case: &gen::ModelCase| {
             let p = util::predictor(&case.spec, false)?;
             let mut many = false;
-            for text in &case.texts {
-                let mut s = Sentence::from_raw(text.clone()).map_err(|e| format!("from_raw: {e}"))?;
+            for (ti, text) in case.texts.iter().enumerate() {
+                // odd texts: predict on a sentence that already carries labels and tags
+                let mut s = if ti % 2 == 1 {
+                    Sentence::from_partial_annotation(&util::partial_annotation_of(text, ti)).map_err(|e| format!("from_partial_annotation: {e}"))?
+                } else {
+                    Sentence::from_raw(text.clone()).map_err(|e| format!("from_raw: {e}"))?
+                };
                 p.predict(&mut s);
+                // every accessor, both writers and the iterator must work right after predict
+                let _ = util::observe(&s);
                 let rs = oracle::observe_sentence(&s);
                 ensure!(!rs.labels.contains(&UNK), "unknown label after predict");
                 let _ = NB;
